@@ -12,7 +12,8 @@ Faults: `oversleep` (the wait returns late), `early_wakeup` (it returns before i
 Oracle (expected deadlines are computed by the harness from creation/reset time + interval, not read from the Timer):
   * never early: a timer event is fired only when now >= deadline - 1e-9;
   * one-shot: exactly one firing, and the timer has left the tree at quiescence;
-  * persistent: consecutive firings >= interval apart; no firing after its unregistration completed;
+  * persistent: consecutive firings >= interval apart; no firing once unregister() has been called on it (nor, of course, after the
+    unregistration completed);
   * reset() restarts the countdown (deadline = time of reset + interval);
   * sleep bound: an idle wait entered at t with budget d satisfies t + d <= earliest pending deadline (+1e-9) and is never unlimited
     while a timer is pending;
@@ -45,12 +46,12 @@ REAL = ['circuits.core.timers.Timer', 'circuits.core.manager.Manager.tick/_dispa
         'circuits.core.components (register/unregister)']
 STUBBED = ['time() -> virtual clock', 'threading.Event -> VEvent (waiting moves the clock)', 'select module -> non-blocking shim',
            'thread identity during an injected foreign-thread action']
-ASSUMPTIONS = ['timers are not created from inside a generate_events handler', 'between unregister() and its completion a persistent timer may or may not fire (not judged)']
+ASSUMPTIONS = ['timers are not created from inside a generate_events handler', '"until it is unregistered" is read as: until unregister() has been called on the timer (the Timer guards on its pending unregistration for exactly that)']
 PROBES = ['timer-fired', 'bounded-wait', 'unbounded-wait', 'action-in-idle', 'reset', 'unregister', 'fault:oversleep', 'fault:early_wakeup',
           'fault:slow_handler', 'fault:clock_jump', 'datetime-timer', 'cfg:fallback', 'cfg:Select', 'cfg:Poll', 'cfg:EPoll', 'equal-deadlines',
           'timer-from-handler']
 TIERS = {
-    'quick': dict(runs=16000, wall=35, chunk=200, cfg=dict(max_timers=4, max_actions=8, max_iters=1500, soft_iters=150)),
+    'quick': dict(runs=36000, wall=32, chunk=200, cfg=dict(max_timers=4, max_actions=8, max_iters=1500, soft_iters=150)),
     'thorough': dict(runs=400000, wall=600, chunk=400, cfg=dict(max_timers=6, max_actions=20, max_iters=5000, soft_iters=600)),
 }
 
@@ -188,6 +189,10 @@ def _run(ctx):
                      rec['tid'], rel(now), rec['deadline'] - now, rel(rec['deadline']), rec['interval']))
         if not rec['persist'] and len(rec['fires']) > 1:
             fail('C09/one-shot-fired-twice', 'one-shot Timer #%d fired at %r' % (rec['tid'], [rel(x) for x in rec['fires']]))
+        if rec['unreg'] is not None:
+            # "fires repeatedly ... until it is unregistered, after which it never fires again": unregister() has returned
+            fail('C09/fired-after-unregister/%s' % ('persistent' if rec['persist'] else 'one-shot'),
+                 'Timer #%d fired at t=%r although unregister() had been called on it at t=%r' % (rec['tid'], rel(now), rel(rec['unreg'])))
         if rec.get('detached_at') is not None:
             fail('C09/fired-after-unregistered', 'Timer #%d fired at t=%r although its unregistration had completed at t=%r' % (
                 rec['tid'], rel(now), rel(rec['detached_at'])))
